@@ -7,7 +7,7 @@
 From Coq Require Import List NArith String.
 From V Require Import Base.Util Base.Result Model.Registry Model.Format Model.Describe
   Model.DescribeSpec Proofs.FormatProofs Proofs.DescribeProofs Proofs.DescribeExpand
-  Proofs.DescribeLockstep.
+  Proofs.DescribeLockstep Proofs.DescribeFormatTokens.
 Import ListNotations.
 
 (** *** Termination and success.
@@ -140,10 +140,30 @@ Theorem C13_lockstep :
 Proof. exact describe_lockstep. Qed.
 Print Assumptions C13_lockstep.
 
-(** Not proved: that the FORMATTED text has the same tokens (it has the same
-    non-whitespace characters by C13_format_ws; that no word is split needs the
-    formatter's "whitespace only next to brackets and commas" on code points).
-    Checked at run time by [prop_lockstep] on every observed formatted text. *)
+(** The formatted text reads the same way: the formatter preserves the token
+    structure (words and punctuation) of ANY text, for every decision oracle --
+    it puts whitespace only next to { } ( ) < > , and never splits or joins a
+    word.  Stated with the same tokenizer on code points ([ctokens]), the form
+    in which the model produces the formatted text. *)
+Theorem C13_format_tokens :
+  forall (r : registry) (id : N) (s : string) (l : list N),
+    describe r id = Ok s -> describe_fmt r id = Ok l ->
+    ctokens l = ctokens (utf8_decode s).
+Proof. exact describe_format_ctokens. Qed.
+Print Assumptions C13_format_tokens.
+
+Theorem C13_formatter_preserves_tokens :
+  forall (O : Type) (decide : O -> N -> N -> list N -> bool * O) (o : O) (input : list N),
+    ctokens (format_with O decide o input) = ctokens input.
+Proof. exact format_with_ctokens. Qed.
+Print Assumptions C13_formatter_preserves_tokens.
+
+(** Not proved: the bridge between the byte tokenizer [tokens s] of
+    C13_lockstep and the code-point tokenizer [ctokens (utf8_decode s)] (they
+    agree on every text whose non-ASCII bytes are well-formed UTF-8; all
+    punctuation is ASCII).  At run time [prop_lockstep] reads the OBSERVED
+    formatted text with [tokens] directly, and [prop_fmt_tokens] compares the
+    [ctokens] of the two observed texts. *)
 
 (** *** Every type reachable from the id through fields, variants' fields and
     element types -- in particular every struct and enum -- is written out in
